@@ -30,14 +30,14 @@ type verifSide struct {
 	idxHash   bool
 	pk        bool
 	fk        bool
-	fkDelete  int // 0 "", 1 NO ACTION, 2 CASCADE
+	fkDelete  int // 0 "", 1 NO ACTION, 2 CASCADE, 3 RESTRICT, 4 SET NULL
 	fkCols    int // composite key: 0 (b,c)->(id,id2), 1 child columns swapped, 2 parent columns swapped
 	chk       bool
 	chkExpr   string
 	strict    bool
 }
 
-var verifActions = []schema.ReferenceOption{"", schema.NoAction, schema.Cascade}
+var verifActions = []schema.ReferenceOption{"", schema.NoAction, schema.Cascade, schema.Restrict, schema.SetNull}
 
 // verifSideOf declares one side. group selects which elements vary:
 // 0 column, 1 index + primary key, 2 foreign key + check + table option,
@@ -106,7 +106,7 @@ Rest:
 	}
 	s.fk = verifChoice(tag+"_fk", 2) == 1
 	if s.fk {
-		s.fkDelete = verifChoice(tag+"_fk_delete", 3)
+		s.fkDelete = verifChoice(tag+"_fk_delete", 5)
 		s.fkCols = verifChoice(tag+"_fk_cols", 3)
 	}
 	s.chk = verifChoice(tag+"_chk", 2) == 1
@@ -251,6 +251,7 @@ func verifExpected(f, t verifSide) []verifWant {
 		w = append(w, verifWant{"add-fk", 0})
 	case f.fk:
 		fa, ta := f.fkDelete, t.fkDelete
+		// unset means NO ACTION; RESTRICT is a different action
 		if fa == 0 {
 			fa = 1
 		}
